@@ -279,12 +279,17 @@ def run_case(seed, index, props, direction=None, verbose=False):
     if any(a is b for a, b in zip(w.tasks, sch.tasks)): R.bad('C06 result shares task objects with input')
     if 'C06' in props:
         r1 = result_view(s)
-        s2 = sched(mk()).calc(w)
-        if result_view(s2) != r1: R.bad('C06 repeated call differs (fresh scheduler)')
+
+        def again(label, fn):
+            try:
+                if result_view(fn()) != r1: R.bad(label)
+            except Exception as e:             # the first call returned a schedule: equal inputs must do so again
+                R.bad(label, f'second call raises {type(e).__name__}: {str(e)[:80]}')
+        again('C06 repeated call differs (fresh scheduler)', lambda: sched(mk()).calc(w))
         rs_shared = mk(); sc = sched(rs_shared)
-        ra = result_view(sc.calc(w)); rb = result_view(sc.calc(w))
-        if ra != r1 or rb != r1: R.bad('C06 repeated call on the same scheduler object differs')
-        if result_view(sched(rs_shared).calc(w)) != r1: R.bad('C06 fresh scheduler with the same resource objects differs')
+        again('C06 repeated call on the same scheduler object differs', lambda: sc.calc(w))
+        again('C06 repeated call on the same scheduler object differs', lambda: sc.calc(w))
+        again('C06 fresh scheduler with the same resource objects differs', lambda: sched(rs_shared).calc(w))
         if direction == 'fwd' and clock <= bound:
             set_clock(bound - timedelta(days=rng.randint(0, 400), hours=rng.choice([0, 5])))
             if bound.hour and FakeDT._now >= mid(bound): tags.add('clock-on-the-day-of-a-nonmidnight-project-start')
@@ -305,6 +310,8 @@ def run_case(seed, index, props, direction=None, verbose=False):
             for c, d in R2.viol: R.bad(c, d + ' [second call after DirectCalendar.set_units on the same Resource]')
         except RuntimeError:
             pass
+        except Exception as e:
+            for pid in sorted(props): R.bad(f'{pid} returned schedule is inconsistent with the input WBS ({type(e).__name__} while evaluating the clauses)', 'second call after set_units')
     # ---- C08: balancing off => independent of unrelated tasks
     if 'C08' in props and direction == 'fwd' and not balance and 'outside-link' not in tags:
         independence(R, w, s, sched, mk, rng)
@@ -499,7 +506,12 @@ def run(props, tier, seed, budget=None):
     n = budget or DEFAULT_BUDGET[tier]
     findings = []; stats = collections.Counter(); distinct = set(); samples = []
     for i in range(n):
-        viol, tags, desc, outcome = run_case(seed, i, props)
+        try:
+            viol, tags, desc, outcome = run_case(seed, i, props)
+        except Exception as e:          # an exception escaping the scenario itself: library code failed where the scenario expects none
+            import traceback
+            viol = [(f'{pid} unexpected {type(e).__name__} while exercising the scenario', traceback.format_exc()[-600:]) for pid in sorted(props)]
+            tags, desc, outcome = {'scenario-exception'}, {'wbs': [], 'exception': repr(e)[:200]}, 'exception'
         stats['cases'] += 1; stats['outcome:' + outcome] += 1
         key = jdump({k: desc[k] for k in ('direction', 'balance', 'wbs', 'resources')})
         if len(desc['wbs']) > 1: distinct.add(hash(key))
